@@ -1,6 +1,6 @@
 import Verif.Props.C01
 open Verif.Props.C01
 #print axioms prec_order
-#print axioms binary_tables_partial
-#print axioms binary_tables_counterexample
+#print axioms binary_tables
+#print axioms bitor_left_above
 #print axioms unary_tables
